@@ -326,8 +326,8 @@ func NewStringType() Type {
 		signatureIDL: "str",
 		typeName:     jen.String(),
 		marshal: func(id string, writer string) *Statement {
-			return jen.Id("basic.WriteString").Call(jen.Id(id),
-				jen.Id(writer))
+			return jen.Qual("github.com/lugu/qiloop/type/basic",
+				"WriteString").Call(jen.Id(id), jen.Id(writer))
 		},
 		unmarshal: func(reader string) *Statement {
 			return jen.Qual("github.com/lugu/qiloop/type/basic",
@@ -545,7 +545,7 @@ func (l *ListType) Unmarshal(reader string) *Statement {
 		jen.Id("b").Index().Add(l.value.TypeName()),
 		jen.Err().Error(),
 	).Block(
-		jen.Id("size, err := basic.ReadUint32").Call(jen.Id(reader)),
+		jen.List(jen.Id("size"), jen.Err()).Op(":=").Qual("github.com/lugu/qiloop/type/basic", "ReadUint32").Call(jen.Id(reader)),
 		jen.If(jen.Id("err != nil")).Block(
 			jen.Return(jen.Id("b"), jen.Qual("fmt", "Errorf").Call(jen.Id(`"read slice size: %s", err`)))),
 		// the slice grows with the elements actually read: the
@@ -669,7 +669,7 @@ func (m *MapType) Unmarshal(reader string) *Statement {
 		jen.Id("m").Map(m.key.TypeName()).Add(m.value.TypeName()),
 		jen.Err().Error(),
 	).Block(
-		jen.Id("size, err := basic.ReadUint32").Call(jen.Id(reader)),
+		jen.List(jen.Id("size"), jen.Err()).Op(":=").Qual("github.com/lugu/qiloop/type/basic", "ReadUint32").Call(jen.Id(reader)),
 		jen.If(jen.Id("err != nil")).Block(
 			jen.Return(jen.Id("m"), jen.Qual("fmt", "Errorf").Call(jen.Id(`"read map size: %s", err`)))),
 		// the announced size is not trusted for the allocation.
@@ -814,6 +814,7 @@ func (t *TupleType) Marshal(tupleID string, writer string) *Statement {
 		statements = append(statements, s2)
 	}
 	statements = append(statements, jen.Return(jen.Nil()))
+	statements = append([]jen.Code{jen.Var().Err().Error()}, statements...)
 	return jen.Func().Params().Params(jen.Error()).Block(
 		statements...,
 	).Call()
